@@ -39,6 +39,42 @@ def untilScheduled (I cur : Nat) (S : Entries) (q : Key) : Nat :=
   | some e => timeBetween I cur e.2
   | none => ((S.filter fun e => isPre q e.1).map fun e => timeBetween I cur e.2).foldl max 0
 
+/-! ### `groupAndScheduleKeysByPrefix` -/
+
+/-- `getAvgPrefixLenNoLock` (for a node that is online): the cached estimate while it is valid, afterwards the mean
+    length of the scheduled prefixes (rounded down), which also replaces the cached value -/
+def avgPrefixLen (cached : Nat) (valid : Bool) (S : Entries) : Nat :=
+  if valid || S.isEmpty then cached else (S.map (·.1.length)).foldl (· + ·) 0 / S.length
+
+structure GSt where
+  S : Entries
+  /-- the groups built so far: prefix and its keys -/
+  groups : List (Key × List Key) := []
+  seen : List Key := []
+  /-- the average prefix length, read once, when the first key without a scheduled prefix is met -/
+  avg : Option Nat := none
+
+/-- one key of the loop -/
+def groupKey (I D cur cached : Nat) (valid doSched : Bool) (order : Key) (g : GSt) (k : Key) : GSt :=
+  if g.seen.contains k then g else
+  let g := { g with seen := g.seen ++ [k] }
+  match g.groups.find? (fun e => isPre e.1 k) with
+  | some e => { g with groups := g.groups.map fun x => if x.1 == e.1 then (x.1, x.2 ++ [k]) else x }
+  | none =>
+    let (prefix_, g) : Key × GSt :=
+      match g.S.find? (fun e => isPre e.1 k) with
+      | some e => (e.1, g)
+      | none =>
+        let avg := match g.avg with | some a => a | none => avgPrefixLen cached valid g.S
+        let p := k.take avg
+        (p, { g with avg := some avg, S := if doSched then schedulePrefix I D cur order g.S p false else g.S })
+    let below := g.groups.filter fun e => isPre prefix_ e.1
+    let ks := [k] ++ (below.map (·.2)).flatten
+    { g with groups := (g.groups.filter fun e => !isPre prefix_ e.1) ++ [(prefix_, ks)] }
+
+def groupKeys (I D cur cached : Nat) (valid doSched : Bool) (order : Key) (S : Entries) (keys : List Key) : GSt :=
+  keys.foldl (groupKey I D cur cached valid doSched order) { S := S }
+
 structure Hist where
   /-- (instant, prefix), kept in datastore key order: by instant, then by prefix text -/
   entries : List (Nat × Key) := []
